@@ -662,7 +662,8 @@ C18(c, o) ==
       k == "c18|" \o ToString(c.opts) \o env
   IN [ dom |-> TRUE,
        fails |-> SameOrNew(m, k, RetSig(o), "two calls with equal source and options returned different results" \o (IF Has(c, "fmt_plan") THEN " (formatter plan of this call: " \o c.fmt_plan \o ")" ELSE ""))
-                 \cup (IF Has(o, "repeat_same") THEN Chk(o.repeat_same, "repeated calls in one process returned different text") ELSE {}),
+                 \cup (IF Has(o, "repeat_same") THEN Chk(o.repeat_same, "repeated calls in one process returned different text") ELSE {})
+                 \cup Chk(~Has(o, "zombie"), "the call left a formatter process behind that it did not wait for (state outside the call changed)"),
        m |-> MPut(m, k, RetSig(o)) ]
 
 (* ------------------------------------------------------------------ refinement of the operational models (DRIFT, not a property) *)
